@@ -113,7 +113,7 @@ LOGICS = {
 }
 OPS = {'+': 2, '-': 2, '*': 2, '/': 2, 'div': 2, 'mod': 2, '<': 2, '<=': 2, '>=': 2, '=': 2, 'distinct': 2, 'ite': 3, 'and': 2, 'or': 2, 'not': 1, '=>': 2, 'xor': 2,
        'select': 2, 'store': 3, 'f': 1, 'g': 2, 'abs': 1, 'to_real': 1}
-UNARY_TOO = ['-', '+', 'and', '=', 'f']        # additionally applied to one and to three arguments (arity problems)
+UNARY_TOO = ['-', '+', 'and', '=', 'distinct', 'f']        # additionally applied to one and to three arguments (arity problems)
 
 
 def cls(op, args, funs):
@@ -326,12 +326,12 @@ def run(prop, tier):
     chk.run_stage('single-token mutants of %d seeds x %d tokens' % (len(SEEDS), len(TOKENS)), [(si, False, s, 8, R) for si in range(len(SEEDS)) for s in range(8)], mutant_task)
     chk.run_stage('sanitizer build: term shapes depth 1 in assert position (%s)' % ', '.join(ASAN_LOGICS), [(lg, False, s, 8, A, 1) for lg in ASAN_LOGICS for s in range(8)], term_task)
     chk.run_stage('sanitizer build: command orders, length<=2', [(L, None, s, 16, A) for L in (1, 2) for s in range(16)], order_task)
-    chk.run_stage('sanitizer build: single-token mutants of seeds 0-2', [(si, False, s, 16, A) for si in range(3) for s in range(16)], mutant_task)
+    chk.run_stage('sanitizer build: single-token mutants of seeds 0-1', [(si, False, s, 16, A) for si in range(2) for s in range(16)], mutant_task)
     if tier == 'thorough':
         chk.run_stage('term shapes depth 2 (one nested argument), assert position', [(lg, True, s, 32, R, 1) for lg in logics for s in range(32)], term_task)
         chk.run_stage('command orders, length 4 over %d core commands' % len(CORE_CMDS), [(4, CORE_CMDS, s, 128, R) for s in range(128)], order_task)
         chk.run_stage('pairs of structural token replacements inside one command', [(si, True, s, 64, R) for si in range(len(SEEDS)) for s in range(64)], mutant_task)
         chk.run_stage('sanitizer build: term shapes depth 1, 4 positions, all logics', [(lg, False, s, 16, A, 4) for lg in logics for s in range(16)], term_task)
-        chk.run_stage('sanitizer build: single-token mutants of seeds 3-5', [(si, False, s, 16, A) for si in range(3, 6) for s in range(16)], mutant_task)
+        chk.run_stage('sanitizer build: single-token mutants of seeds 2-5', [(si, False, s, 16, A) for si in range(2, 6) for s in range(16)], mutant_task)
         chk.run_stage('sanitizer build: command orders, length 3', [(3, None, s, 128, A) for s in range(128)], order_task)
     return chk.finish()
